@@ -46,7 +46,8 @@ def gen_assign(rng, params, mode):
             out.append([k, ["int", rng.randint(1, 9)]])
         elif mode == "expr" and rng.random() < 0.6:
             others = [x for x in params if x != k and "#" not in x and "." not in x and x not in H.COUNT_NAMES]
-            pool = others + ["z", "t"]
+            # names assigned in the same call are mentioned more often than fresh ones (crossed assignments)
+            pool = others + others + ["z", "t"]
             e = H.gen_expr(rng, pool, 1)
             out.append([k, ["str", E.to_str(e), e]])
         else:
